@@ -165,6 +165,47 @@ def run(tier, seed):
         except Exception:
             pass
         ev.case((r["ref"], r["est"], r["fs"]), nontrivial=cls == "general")
+    # segment.evaluate as a composition (MC_C16_eval): alignment by specification, then all 21 entries
+    cfg2 = "MC_C16_eval_T" if thorough else "MC_C16_eval"
+    res = tlc.run("MC_C16_eval", cfg=cfg2, timeout=3400, heap="8g")
+    erows = res["rows"]["ROW"]
+    if len(erows) * 2 != res["distinct"]:
+        raise Machinery("%s: %d rows for %d states" % (cfg2, len(erows), res["distinct"]))
+    ev.tlc(cfg2, res, "alignment (AdjustSpec) composed with detection / deviation / frame clustering; invariants Aligned, InRange")
+    n_eval = 0
+    for k, r in enumerate(erows):
+        if (k + seed) % (7 if thorough else 1):
+            continue
+        ri = np.array(r["ref"]["ivs"], dtype=float) * U
+        ei = np.array(r["est"]["ivs"], dtype=float) * U
+        rl, el = r["ref"]["labs"], r["est"]["labs"]
+        fs = r["fs"] * U
+        out = r["out"]
+        exp = expected_scores(out, 1.0, False)
+        expm = expected_scores(out, 1.0, True)
+        f3 = lambda d: [float(frac(d["p"])), float(frac(d["r"])), float(frac(d["f"]))]  # noqa
+        want = f3(out["d05"]) + f3(out["d3"]) + [float(frac(out["dev"][0])) * U, float(frac(out["dev"][1])) * U]
+        want += list(exp.get("pairwise", (None, None, None))) + list(exp.get("rand_index", (None,))) + list(exp.get("ari", (None,)))
+        want += list(exp["mutual_information"]) + list(exp["nce"]) + list(expm["nce"])
+        detail = {"ref_intervals": ri.tolist(), "ref_labels": rl, "est_intervals": ei.tolist(), "est_labels": el, "frame_size": fs,
+                  "aligned_est": out["estA"], "aligned_ref": out["refA"]}
+        n_eval += 1
+        try:
+            d = s.evaluate(ri, rl, ei, el, frame_size=fs)
+            got = [float(x) for x in d.values()]
+        except Exception as ex:  # noqa
+            rep.violation("segment.evaluate", "aligned/raised-" + type(ex).__name__, dict(detail, message=str(ex)[:200]))
+            continue
+        if len(got) != len(want):
+            rep.violation("segment.evaluate", "aligned/arity", dict(detail, got=got))
+            continue
+        for pos, (g, w) in enumerate(zip(got, want)):
+            if w is not None and not abs(g - w) <= 1e-9:
+                rep.violation("segment.evaluate", "aligned/value-differs@" + list(d.keys())[pos], dict(detail, got=g, expected=w, entry=list(d.keys())[pos]))
+                break
+        ev.case(("eval", r["ref"], r["est"], r["fs"]), nontrivial=out["estA"]["ivs"] != r["est"]["ivs"])
+    ev.cov["evaluate_compositions_replayed"] = n_eval
+    ev.sample({"model": cfg2, "row": {k2: erows[len(erows) // 2][k2] for k2 in ("ref", "est", "fs")}})
     ev.cov["traces_validated_against_impl"] = len(rows) if thorough else len(rows) // 2
     ev.sample({"row": {k: rows[len(rows) // 2][k] for k in ("ref", "est", "fs")}, "spec": rows[len(rows) // 2]["out"]})
     ev.cov["rule"] = ("every pair of labelled segmentations of the model x frame sizes, random beta in {1/2,1,2}; six functions "
